@@ -2,7 +2,7 @@
    the growth policy next_capacity::<T> is not transcribed by hand, the machine evaluates the
    AST that rs2v dumped from src/impl/helpers.rs (DESIGN.md 3.1). *)
 From Coq Require Import ZArith List String Bool.
-From MV Require Import Ast Eval Scalar Machine Run Text Equiv.
+From MV Require Import Ast Eval Scalar Machine Run Text EquivDefs.
 From MV.Gen Require Import AstGen.
 Import ListNotations.
 Open Scope Z_scope.
